@@ -44,7 +44,7 @@ func integralNumeric(n *Node) bool {
 func d8Fold(n *Node) *Node {
 	c := n.Clone()
 	c.Walk(func(x *Node) {
-		if integralNumeric(x) && math.Abs(x.F) < 9.2e18 {
+		if integralNumeric(x) && math.Abs(x.F) < 9223372036854775808.0 { // the printed digits fit an int64 (below 2^63; -2^63 itself re-parses as a double)
 			// the integer literal of the same value: finding D8 is the change of the node's kind, not
 			// a change of the number (D56: beyond 2^53 the digits printed were the shortest ones that
 			// read back as the same double, 2^62 -> 4611686018427388000, and the integer literal
